@@ -2,6 +2,28 @@
 from ost import *
 
 
+CTL_SIZES = {(12, 1): 11, (41, 1): 5, (41, 2): 3, (41, 3): 5, (41, 4): 9}
+
+
+def control_statuses(objs):
+    """status octets of the control objects echoed in a response (None when it cannot be parsed)"""
+    out, i = [], 0
+    while i < len(objs):
+        if i + 3 > len(objs): return None
+        g, v, q = objs[i], objs[i + 1], objs[i + 2]
+        i += 3
+        size = CTL_SIZES.get((g, v))
+        w = 1 if q == 0x17 else 2 if q == 0x28 else None
+        if size is None or w is None or i + w > len(objs): return None
+        n = int.from_bytes(objs[i:i + w], "little")
+        i += w
+        for _ in range(n):
+            if i + w + size > len(objs): return None
+            i += w + size
+            out.append(objs[i - 1] & 0x7F if g == 12 else objs[i - 1])
+    return out
+
+
 class C04(OutstationProp):
     id = "C04"
     proof_targets = ["Outstation/SessionC04Proofs.vo"]
@@ -58,6 +80,11 @@ class C04(OutstationProp):
                         reply = txs(rxs[first][4])
                         if not reply:
                             ok, why = False, "the SELECT was not answered"
+                        else:
+                            st = control_statuses(reply[-1][2][4:])
+                            if st is None or any(x != 0 for x in st) or (reply[-1][2][3] & 0x07):
+                                ok, why = False, ("the SELECT had not succeeded for every object (statuses %s, IIN2 %#x)"
+                                                  % (st, reply[-1][2][3]))
             if not ok:
                 fails.append(("operate-without-select", "control handler operated (select-before-operate) though " + why))
         return fails
